@@ -164,6 +164,7 @@ func (t *Tokenizer) Reset() {
 
 	t.line = 0
 	t.posCacheValid = false
+	t.solidEnd = 0
 
 	// Don't reset keywords as they're constant
 	t.logger = nil
